@@ -43,29 +43,27 @@ pub fn check(paths: &[PathBuf], suppress_output: bool) -> Result<(), String> {
 pub fn echo(paths: &[PathBuf], suppress_output: bool) -> Result<(), String> {
     let mut project = create_project(paths, suppress_output)?;
 
-    // Collect the results and output after because getting the results may change
-    // the project itself
-    let mut results = vec![];
+    // Render each source (or keep its diagnostics) first because getting the
+    // library may change the project itself; report afterwards, when the
+    // project can be borrowed again to show where a problem is
+    let mut results: Vec<Result<String, Vec<Diagnostic>>> = vec![];
     for src in project.sources_mut() {
-        results.push(src.library());
+        let result = match src.library() {
+            Ok(library) => write_to_string(library),
+            Err(diagnostics) => Err(diagnostics.into_iter().cloned().collect()),
+        };
+        results.push(result);
     }
 
     let mut has_error = false;
 
     for result in results {
         match result {
-            Ok(library) => {
-                let output = write_to_string(library).map_err(|e| {
-                    handle_diagnostics(&e, None, suppress_output);
-                    String::from("Error echo source")
-                })?;
-
+            Ok(output) => {
                 print!("{}", output);
             }
             Err(diagnostics) => {
-                let diagnostics: Vec<Diagnostic> = diagnostics.into_iter().cloned().collect();
-                // TODO this needs to be improved but will wait for changes to source
-                handle_diagnostics(&diagnostics, None, suppress_output);
+                handle_diagnostics(&diagnostics, Some(&project), suppress_output);
 
                 print!("Syntax error");
 
